@@ -713,6 +713,14 @@ mod shimtest {
                 let parts: Vec<&str> = s.split(sep).collect();
                 let sc: Vec<char> = sep.chars().collect();
                 if parts.is_empty() || parts.join(sep) != *s || parts.iter().any(|p| has_sub(&p.chars().collect::<Vec<_>>(), &sc)) { h.hit("shims", "shim_split", "str::split", s, sep); }
+                // axiom_split_step2 (two different characters) and axiom_lower_plain
+                if sc.len() == 2 && sc[0] != sc[1] {
+                    match s.find(sep) {
+                        None => if parts != vec![s.as_str()] { h.hit("shims", "shim_split_step2", "str::split", s, sep); },
+                        Some(k) => { let mut want = vec![&s[..k]]; want.extend(s[k + sep.len()..].split(sep)); if parts != want { h.hit("shims", "shim_split_step2", "str::split", s, sep); } }
+                    }
+                }
+                if s.chars().all(|c| (c as u32) < 128 && !c.is_ascii_uppercase()) && s.to_lowercase() != *s { h.hit("shims", "shim_lower_plain", "str::to_lowercase", s, ""); }
                 // axiom_split_step: the first piece ends at the first separator, the rest is the split of what follows; no separator: one piece
                 if sc.len() == 1 {
                     match s.find(sep) {
